@@ -282,7 +282,10 @@ func Type(param *sysl.Param) string {
 	if param.Type.GetTypeRef() != nil {
 		return syslutil.JoinTypeRef(param.Type.GetTypeRef())
 	}
-	return strings.Join(param.Type.GetTypeRef().Ref.Appname.Part, "")
+	if p := param.Type.GetPrimitive(); p != sysl.Type_NO_Primitive {
+		return strings.ToLower(p.String())
+	}
+	return ""
 }
 
 // Call prints:
